@@ -232,8 +232,12 @@ def ev_cov(case, rec):
     for m in case['mats']:
         one = dict(case, mats=[m])
         vcv = np.array(m, dtype=float)
+        before = vcv.tobytes()
         st, r = rec.call(conform7, pt[0], pt[1], pt[2], t, vcv)
         co = {'trans': case['trans'][1], 'has_sd': has_sd}
+        if vcv.tobytes() != before:
+            rec.fail('conform7 modified the covariance array supplied by the caller', site='transform:conform7:vcv-argument', observed=vcv,
+                     expected=m, case=one, coords=co)
         if st != 'ok':
             rec.fail('conform7 raised when a covariance was supplied', site='transform:conform7:vcv', observed=r, case=one, coords=co)
             rec.outcome('raise')
